@@ -1,7 +1,7 @@
 """Registry entry, manifest texts for C01."""
 
 ENTRY = {'parts': [{'scenario': 'scenarios.s_pool', 'chunk': 6}],
-         'quick': {'runs': 2500, 'budget': 55}, 'thorough': {'runs': 150000, 'budget': 1200}}
+         'quick': {'runs': 2500, 'budget': 40}, 'thorough': {'runs': 150000, 'budget': 1200}}
 
 TEXT = {'level': 'Seeded search over schedules x fault sequences of the whole pool (real Pool, 4 handler threads, '
           'real workers created by pickled spawn) on the simulated kernel: apply/map/imap jobs with unique '
